@@ -19,7 +19,7 @@ import (
 
 func init() {
 	core.Register(&core.Rule{
-		ID: "R12.1", Generated: true,
+		ID: "R12.1", Generated: true, GeneratedRoot: true,
 		Title: "generator output type-checks against the current runtime",
 		Text: "Every corpus manifest (and the checked-in manifest) is generated with the current tree's generator and loaded with go/packages against the current runtime: zero type errors, no import cycle, no duplicate declaration. " +
 			"In the thorough tier the manifests under corpus/v2/failing (recorded generator defects) are generated too; each is reported as a known finding while it still fails. A second generator run must produce byte-identical files.",
@@ -55,7 +55,7 @@ func init() {
 		Run:   runR064,
 	})
 	core.Register(&core.Rule{
-		ID: "R10.1", Generated: true,
+		ID: "R10.1", Generated: true, GeneratedRoot: true,
 		Title: "generated Equals compares every field, with an operator fit for its type",
 		Text:  "For every generated record, union and complex key: Equals mentions every struct field and embedded include on both sides (receiver and other); a direct == between fields is used only for non-pointer comparable basic types (never for pointers, slices or maps).",
 		Props: []string{"C10"},
@@ -63,7 +63,7 @@ func init() {
 		Run:   runR101,
 	})
 	core.Register(&core.Rule{
-		ID: "R10.2", Generated: true,
+		ID: "R10.2", Generated: true, GeneratedRoot: true,
 		Title: "hash folds a subset of what Equals compares, under nil tests",
 		Text:  "For every generated record and union: every field folded into ComputeHash is compared by Equals (a field hashed but not compared breaks Equal => same hash); pointer-typed fields are dereferenced only under their nil test; ComputeHash contains no map range.",
 		Props: []string{"C10"},
@@ -89,7 +89,7 @@ func init() {
 		Run:   runR132,
 	})
 	core.Register(&core.Rule{
-		ID: "R13.3", Generated: true,
+		ID: "R13.3", Generated: true, GeneratedRoot: true,
 		Title: "default values are never shared between instances",
 		Text:  "populateLocalDefaultValues references no package-level variable: every assigned value is the address of a local, new(…), a composite literal or the result of a decode into a fresh target.",
 		Props: []string{"C13"},
@@ -106,7 +106,7 @@ func init() {
 		Run:   runR111,
 	})
 	core.Register(&core.Rule{
-		ID: "R11.2", Generated: true,
+		ID: "R11.2", Generated: true, GeneratedRoot: true,
 		Title: "fixed: the length test dominates the copy",
 		Text:  "For every generated fixed type: UnmarshalRestLi compares len(data) with the declared array length and returns an error before copy; the marshaler writes the whole array (f[:]).",
 		Props: []string{"C11", "C04"},
@@ -114,16 +114,16 @@ func init() {
 		Run:   runR112,
 	})
 	core.Register(&core.Rule{
-		ID: "R11.3", Generated: true,
+		ID: "R11.3", Generated: true, GeneratedRoot: true,
 		Title: "enums: only declared symbols are written; unknown symbols decode to the unknown value",
 		Text: "For every generated enum: the _values and _strings literals are inverse bijections over exactly the manifest's symbols; MarshalRestLi returns IllegalEnumConstant on the not-found edge before anything is written; " +
 			"UnmarshalRestLi assigns the _values lookup (zero = the unknown constant, which is not in _strings); IsValid's bounds equal the number of symbols.",
-		Props: []string{"C11"},
+		Props: []string{"C11", "C10"},
 		Floor: map[string]int{"corpus": 2},
 		Run:   runR113,
 	})
 	core.Register(&core.Rule{
-		ID: "R09.4", Generated: true,
+		ID: "R09.4", Generated: true, GeneratedRoot: true,
 		Title: "generated code never iterates a map into a shared sink",
 		Text:  "R09.1's classifier over every generated package: maps are serialised only through WriteMap / WriteGenericMap / AddMap (which sort), query parameters only through the BuildQueryParams callback.",
 		Props: []string{"C09"},
@@ -1471,13 +1471,21 @@ func runR113(c *core.Ctx) {
 			problems = append(problems, "symbol tables not found")
 		} else {
 			for _, el := range vals.Elts {
-				kv := el.(*ast.KeyValueExpr)
+				kv, isKV := el.(*ast.KeyValueExpr)
+				if !isKV {
+					problems = append(problems, "the symbol table _"+g.Name+"_values is not a keyed literal (symbol -> constant)")
+					break
+				}
 				if cv := core.ConstOf(inf, kv.Key); cv != nil {
 					s2c[constant.StringVal(cv)] = core.ExprString(kv.Value)
 				}
 			}
 			for _, el := range strs.Elts {
-				kv := el.(*ast.KeyValueExpr)
+				kv, isKV := el.(*ast.KeyValueExpr)
+				if !isKV {
+					problems = append(problems, "the symbol table _"+g.Name+"_strings is not a keyed literal (constant -> symbol)")
+					break
+				}
 				if cv := core.ConstOf(inf, kv.Value); cv != nil {
 					c2s[core.ExprString(kv.Key)] = constant.StringVal(cv)
 				}
